@@ -166,15 +166,23 @@ class Interp:
                 sub = full + "." + a.name
                 path, _ = self.find_module_file(sub)
                 if path is None and self.lib.library_module(self, sub) is None:
+                    if self.find_module_file(full)[0] is None:
+                        # a library name the models do not cover: importing it is harmless, USING it is out of reach
+                        env.vars[a.asname or a.name] = IStub(full + "." + a.name, "unmodelled")
+                        continue
                     raise OutOfReach(f"cannot import name {a.name} from {full}")
                 v = self.load_module(sub)
             env.vars[a.asname or a.name] = v
 
     def s_FunctionDef(self, node, env):
         fn = self.make_function(node, env)
-        for dec in reversed(node.decorator_list):
-            d = self.eval(dec, env)
-            fn = self.call(d, [fn], {})
+        try:
+            for dec in reversed(node.decorator_list):
+                d = self.eval(dec, env)
+                fn = self.call(d, [fn], {})
+        except OutOfReach as e:
+            # an unmodelled decorator: the module still loads; calling the decorated function is out of reach
+            fn = IStub(f"{node.name} (decorated: {e})", "unmodelled")
         env.vars[node.name] = fn
 
     def make_function(self, node, env):
@@ -571,6 +579,9 @@ class Interp:
         if v is MISSING:
             v = self.builtins.get(name, MISSING)
             if v is MISSING:
+                import builtins as _pyb
+                if hasattr(_pyb, name):
+                    raise OutOfReach(f"builtin {name} is not modelled")
                 self.raise_("NameError", f"name '{name}' is not defined")
         return v
 
@@ -990,6 +1001,8 @@ class Interp:
         if isinstance(fn, IStub):
             if fn.kind == "logger":
                 return None
+            if fn.kind == "unmodelled":
+                raise OutOfReach(f"call of the unmodelled library function {fn.name}")
             return fn
         if isinstance(fn, IObj):
             f = self.find_dunder(fn, "__call__")
